@@ -723,5 +723,332 @@ pub proof fn lemma_window_sound_one_commitment(local: bool, ob: bool, cv: int, v
     assert(spiked_spec(fr, false, ct) == fr);
 }
 
+// =====================  U01h part 2: thread the helper postconditions through get_available_balances  =====================
+#[derive(Clone, Copy)]
+pub struct ChannelConstraints {
+	pub holder_dust_limit_satoshis: u64,
+	pub counterparty_selected_channel_reserve_satoshis: u64,
+	pub counterparty_dust_limit_satoshis: u64,
+	pub holder_selected_channel_reserve_satoshis: u64,
+	pub counterparty_htlc_minimum_msat: u64,
+	pub counterparty_max_htlc_value_in_flight_msat: u64,
+	pub counterparty_max_accepted_htlcs: u64,
+}
+pub struct AvailableBalances {
+	pub inbound_capacity_msat: u64, pub outbound_capacity_msat: u64, pub next_outbound_htlc_limit_msat: u64,
+	pub next_outbound_htlc_minimum_msat: u64, pub dust_exposure_msat: u64, pub next_splice_out_maximum_sat: u64,
+}
+pub assume_specification<T: core::cmp::Ord>[core::cmp::min::<T>](a: T, b: T) -> (r: T)
+    ensures T::obeys_cmp_spec() ==> r == (if b.cmp_spec(&a) == core::cmp::Ordering::Less { b } else { a });
+
+pub open spec fn dl_spec(fr: int, cc: ChannelConstraints, ct: &ChannelTypeFeatures) -> int { cc.holder_dust_limit_satoshis + second_stage_spec(ct, fr).1 }
+pub open spec fn dr_spec(fr: int, cc: ChannelConstraints, ct: &ChannelTypeFeatures) -> int { cc.counterparty_dust_limit_satoshis + second_stage_spec(ct, fr).0 }
+
+// ---- helpers: contracts proved in u01d / u01f / u01g probes, assumed here ----
+#[verifier::external_body]
+fn get_next_splice_out_maximum_sat(a: bool, b: u64, c: u64, d: u64, e: usize, f: usize, g: u32, h: u32, i: &ChannelConstraints, j: &ChannelTypeFeatures) -> u64 { unimplemented!() }
+#[verifier::external_body]
+fn adjust_capacity_for_holder_reserved_fee(
+	outbound_capacity_msat: u64, local_nondust_htlc_count: usize, remote_nondust_htlc_count: usize,
+	feerate_per_kw: u32, spiked_feerate: u32, channel_constraints: &ChannelConstraints, channel_type: &ChannelTypeFeatures,
+) -> (r: u64)
+    ensures r <= outbound_capacity_msat,
+        forall|a: int| 1 <= a <= r ==>
+            #[trigger] affordable(a, outbound_capacity_msat as int, spiked_feerate as int, local_nondust_htlc_count as int, dl_spec(feerate_per_kw as int, *channel_constraints, channel_type), channel_type)
+            && affordable(a, outbound_capacity_msat as int, spiked_feerate as int, remote_nondust_htlc_count as int, dr_spec(feerate_per_kw as int, *channel_constraints, channel_type), channel_type),
+{ unimplemented!() }
+#[verifier::external_body]
+fn adjust_capacity_for_counterparty_reserved_fee(
+	outbound_capacity_msat: u64, remote_balance_before_fee_msat: u64, local_nondust_htlc_count: usize, remote_nondust_htlc_count: usize, feerate_per_kw: u32,
+	channel_constraints: &ChannelConstraints, channel_type: &ChannelTypeFeatures,
+) -> (r: u64)
+    ensures r <= outbound_capacity_msat,
+        forall|a: int| 1 <= a <= r ==>
+            #[trigger] cp_affordable(a, remote_balance_before_fee_msat as int, feerate_per_kw as int, local_nondust_htlc_count as int, dl_spec(feerate_per_kw as int, *channel_constraints, channel_type), channel_constraints.holder_selected_channel_reserve_satoshis as int, channel_type)
+            && cp_affordable(a, remote_balance_before_fee_msat as int, feerate_per_kw as int, remote_nondust_htlc_count as int, dr_spec(feerate_per_kw as int, *channel_constraints, channel_type), channel_constraints.holder_selected_channel_reserve_satoshis as int, channel_type),
+{ unimplemented!() }
+#[verifier::external_body]
+fn adjust_min_max_htlc_for_dust_exposure(
+	pending_htlcs: &[HTLCAmountDirection], feerate_per_kw: u32, dust_exposure_limiting_feerate: Option<u32>, max_dust_htlc_exposure_msat: u64,
+	channel_constraints: &ChannelConstraints, channel_type: &ChannelTypeFeatures, available_capacity_msat: u64,
+) -> (r: (u64, u64, u64))
+    ensures r.1 <= available_capacity_msat
+{ unimplemented!() }
+pub open spec fn no_output_guard(a: int, ob: bool, lb: int, rb: int, fr: int, n: int, dust: int, d: int, ct: &ChannelTypeFeatures) -> bool {
+    a / 1000 < d ==> has_output_spec(ob, lb - a, rb, fr, n, dust, ct)
+}
+#[verifier::external_body]
+fn adjust_min_max_htlc_if_max_dust_htlc_produces_no_output(
+	is_outbound_from_holder: bool, local_balance_before_fee_msat: u64, remote_balance_before_fee_msat: u64, local_nondust_htlc_count: usize,
+	remote_nondust_htlc_count: usize, feerate_per_kw: u32, channel_constraints: &ChannelConstraints, channel_type: &ChannelTypeFeatures,
+	next_outbound_htlc_minimum_msat: u64, available_capacity_msat: u64,
+) -> (r: (u64, u64))
+    ensures r.0 >= next_outbound_htlc_minimum_msat, r.1 <= available_capacity_msat,
+        forall|a: int| 1 <= a && r.0 <= a <= r.1 && a <= local_balance_before_fee_msat ==>
+            #[trigger] no_output_guard(a, is_outbound_from_holder, local_balance_before_fee_msat as int, remote_balance_before_fee_msat as int, feerate_per_kw as int,
+                local_nondust_htlc_count as int, channel_constraints.holder_dust_limit_satoshis as int, dl_spec(feerate_per_kw as int, *channel_constraints, channel_type), channel_type)
+            && no_output_guard(a, is_outbound_from_holder, local_balance_before_fee_msat as int, remote_balance_before_fee_msat as int, feerate_per_kw as int,
+                remote_nondust_htlc_count as int, channel_constraints.counterparty_dust_limit_satoshis as int, dr_spec(feerate_per_kw as int, *channel_constraints, channel_type), channel_type),
+{ unimplemented!() }
+
+// the facts lemma_window_sound_one_commitment needs, for both commitments
+pub open spec fn window_facts(a: int, ob: bool, cv: int, vth: int, s: Seq<HTLCAmountDirection>, fr: int, cc: ChannelConstraints, ct: &ChannelTypeFeatures) -> bool {
+    let out = sum_if(s, |h: HTLCAmountDirection| h.outbound); let inn = sum_if(s, |h: HTLCAmountDirection| !h.outbound);
+    let anc = 1000 * anchors_spec(ct);
+    let lb = ssub(ssub(vth, out), if ob { anc } else { 0 }); let rb = ssub(ssub(cv * 1000 - vth, inn), if ob { 0 } else { anc });
+    let ocap = ssub(lb, cc.counterparty_selected_channel_reserve_satoshis * 1000);
+    let ln = cnt_if(s, p_nondust(true, fr, cc.holder_dust_limit_satoshis as int, ct));
+    let rn = cnt_if(s, p_nondust(false, fr, cc.counterparty_dust_limit_satoshis as int, ct));
+    let sp = spiked_spec(fr, true, ct);
+    let dl = dl_spec(fr, cc, ct); let dr = dr_spec(fr, cc, ct);
+    &&& a <= ocap
+    &&& ob ==> affordable(a, ocap, sp, ln, dl, ct) && affordable(a, ocap, sp, rn, dr, ct)
+    &&& !ob ==> cp_affordable(a, rb, fr, ln, dl, cc.holder_selected_channel_reserve_satoshis as int, ct) && cp_affordable(a, rb, fr, rn, dr, cc.holder_selected_channel_reserve_satoshis as int, ct)
+    &&& no_output_guard(a, ob, lb, rb, fr, ln, cc.holder_dust_limit_satoshis as int, dl, ct)
+    &&& no_output_guard(a, ob, lb, rb, fr, rn, cc.counterparty_dust_limit_satoshis as int, dr, ct)
+}
+
+fn get_available_balances(
+	is_outbound_from_holder: bool, channel_value_satoshis: u64, value_to_holder_msat: u64,
+	pending_htlcs: &[HTLCAmountDirection], feerate_per_kw: u32,
+	dust_exposure_limiting_feerate: Option<u32>, max_dust_htlc_exposure_msat: u64,
+	channel_constraints: ChannelConstraints, channel_type: &ChannelTypeFeatures,
+) -> (r: AvailableBalances)
+    requires valid_htlcs(pending_htlcs@), channel_value_satoshis <= 21_000_000_0000_0000, value_to_holder_msat <= channel_value_satoshis * 1000,
+        channel_constraints.holder_dust_limit_satoshis <= 21_000_000_0000_0000, channel_constraints.counterparty_dust_limit_satoshis <= 21_000_000_0000_0000,
+        channel_constraints.counterparty_selected_channel_reserve_satoshis <= 21_000_000_0000_0000, channel_constraints.holder_selected_channel_reserve_satoshis <= 21_000_000_0000_0000,
+    ensures
+        // (P) every amount inside the reported window satisfies the hypotheses of the soundness lemma on both commitments
+        forall|a: int| 1 <= a && r.next_outbound_htlc_minimum_msat <= a <= r.next_outbound_htlc_limit_msat ==>
+            #[trigger] window_facts(a, is_outbound_from_holder, channel_value_satoshis as int, value_to_holder_msat as int, pending_htlcs@, feerate_per_kw as int, channel_constraints, channel_type),
+{
+	let spiked_feerate =
+		feerate_per_kw.saturating_mul(if !channel_type.supports_anchors_zero_fee_htlc_tx() {
+			FEE_SPIKE_BUFFER_FEE_INCREASE_MULTIPLE as u32
+		} else {
+			1
+		});
+
+	let local_nondust_htlc_count = { // R6
+        let __s = pending_htlcs; let mut __n: usize = 0; let mut __i: usize = 0;
+        while __i < __s.len()
+            invariant __i <= __s.len(), __s@ == pending_htlcs@, valid_htlcs(__s@), channel_constraints.holder_dust_limit_satoshis <= 21_000_000_0000_0000,
+                __n == cnt_if(__s@.take(__i as int), p_nondust(true, feerate_per_kw as int, channel_constraints.holder_dust_limit_satoshis as int, channel_type)),
+            decreases __s.len() - __i
+        {
+            proof { lemma_step(__s@, __i as int, p_nondust(true, feerate_per_kw as int, channel_constraints.holder_dust_limit_satoshis as int, channel_type));
+                    lemma_prefix_bounds(__s@, __i as int, p_nondust(true, feerate_per_kw as int, channel_constraints.holder_dust_limit_satoshis as int, channel_type)); }
+            let htlc = &__s[__i];
+            if {
+				!htlc.is_dust(
+					true,
+					feerate_per_kw,
+					channel_constraints.holder_dust_limit_satoshis,
+					channel_type,
+				)
+			} { __n = __n + 1; }
+            __i = __i + 1;
+        }
+        proof { assert(__s@.take(__s@.len() as int) =~= __s@); }
+        __n };
+
+	let remote_nondust_htlc_count = { // R6
+        let __s = pending_htlcs; let mut __n: usize = 0; let mut __i: usize = 0;
+        while __i < __s.len()
+            invariant __i <= __s.len(), __s@ == pending_htlcs@, valid_htlcs(__s@), channel_constraints.counterparty_dust_limit_satoshis <= 21_000_000_0000_0000,
+                __n == cnt_if(__s@.take(__i as int), p_nondust(false, feerate_per_kw as int, channel_constraints.counterparty_dust_limit_satoshis as int, channel_type)),
+            decreases __s.len() - __i
+        {
+            proof { lemma_step(__s@, __i as int, p_nondust(false, feerate_per_kw as int, channel_constraints.counterparty_dust_limit_satoshis as int, channel_type));
+                    lemma_prefix_bounds(__s@, __i as int, p_nondust(false, feerate_per_kw as int, channel_constraints.counterparty_dust_limit_satoshis as int, channel_type)); }
+            let htlc = &__s[__i];
+            if {
+				!htlc.is_dust(
+					false,
+					feerate_per_kw,
+					channel_constraints.counterparty_dust_limit_satoshis,
+					channel_type,
+				)
+			} { __n = __n + 1; }
+            __i = __i + 1;
+        }
+        proof { assert(__s@.take(__s@.len() as int) =~= __s@); }
+        __n };
+
+	let outbound_htlcs_value_msat: u64 = { // R6
+        let __s = pending_htlcs; let mut __t: u64 = 0; let mut __i: usize = 0;
+        while __i < __s.len()
+            invariant __i <= __s.len(), __s@ == pending_htlcs@, valid_htlcs(__s@),
+                __t == sum_if(__s@.take(__i as int), |h: HTLCAmountDirection| h.outbound),
+            decreases __s.len() - __i
+        {
+            proof { lemma_step(__s@, __i as int, |h: HTLCAmountDirection| h.outbound);
+                    lemma_prefix_bounds(__s@, __i as int + 1, |h: HTLCAmountDirection| h.outbound); }
+            let htlc = &__s[__i];
+            if htlc.outbound { __t = __t + htlc.amount_msat; }
+            __i = __i + 1;
+        }
+        proof { assert(__s@.take(__s@.len() as int) =~= __s@); }
+        __t };
+	let inbound_htlcs_value_msat: u64 = { // R6
+        let __s = pending_htlcs; let mut __t: u64 = 0; let mut __i: usize = 0;
+        while __i < __s.len()
+            invariant __i <= __s.len(), __s@ == pending_htlcs@, valid_htlcs(__s@),
+                __t == sum_if(__s@.take(__i as int), |h: HTLCAmountDirection| !h.outbound),
+            decreases __s.len() - __i
+        {
+            proof { lemma_step(__s@, __i as int, |h: HTLCAmountDirection| !h.outbound);
+                    lemma_prefix_bounds(__s@, __i as int + 1, |h: HTLCAmountDirection| !h.outbound); }
+            let htlc = &__s[__i];
+            if (!htlc.outbound) { __t = __t + htlc.amount_msat; }
+            __i = __i + 1;
+        }
+        proof { assert(__s@.take(__s@.len() as int) =~= __s@); }
+        __t };
+	let total_anchors_sat = total_anchors_sat(channel_type);
+	let (local_balance_before_fee_msat, remote_balance_before_fee_msat) =
+		saturating_sub_from_funder(
+			is_outbound_from_holder,
+			value_to_holder_msat.saturating_sub(outbound_htlcs_value_msat),
+			(channel_value_satoshis * 1000)
+				.checked_sub(value_to_holder_msat)
+				.unwrap()
+				.saturating_sub(inbound_htlcs_value_msat),
+			total_anchors_sat.saturating_mul(1000),
+		);
+
+	let next_splice_out_maximum_sat = get_next_splice_out_maximum_sat(
+		is_outbound_from_holder,
+		channel_value_satoshis,
+		local_balance_before_fee_msat,
+		remote_balance_before_fee_msat,
+		local_nondust_htlc_count,
+		remote_nondust_htlc_count,
+		feerate_per_kw,
+		spiked_feerate,
+		&channel_constraints,
+		channel_type,
+	);
+
+	let outbound_capacity_msat = local_balance_before_fee_msat
+		.saturating_sub(channel_constraints.counterparty_selected_channel_reserve_satoshis * 1000);
+
+	let available_capacity_msat = if is_outbound_from_holder {
+		adjust_capacity_for_holder_reserved_fee(
+			outbound_capacity_msat,
+			local_nondust_htlc_count,
+			remote_nondust_htlc_count,
+			feerate_per_kw,
+			spiked_feerate,
+			&channel_constraints,
+			channel_type,
+		)
+	} else {
+		adjust_capacity_for_counterparty_reserved_fee(
+			outbound_capacity_msat,
+			remote_balance_before_fee_msat,
+			local_nondust_htlc_count,
+			remote_nondust_htlc_count,
+			feerate_per_kw,
+			&channel_constraints,
+			channel_type,
+		)
+	};
+
+	let (next_outbound_htlc_minimum_msat, mut available_capacity_msat, dust_exposure_msat) =
+		adjust_min_max_htlc_for_dust_exposure(
+			pending_htlcs,
+			feerate_per_kw,
+			dust_exposure_limiting_feerate,
+			max_dust_htlc_exposure_msat,
+			&channel_constraints,
+			channel_type,
+			available_capacity_msat,
+		);
+
+	available_capacity_msat = core::cmp::min(
+		available_capacity_msat,
+		channel_constraints
+			.counterparty_max_htlc_value_in_flight_msat
+			.saturating_sub(outbound_htlcs_value_msat),
+	);
+
+	// (the `outbound count + 1 > max_accepted` cut-off is omitted in this probe: it only lowers the limit to 0)
+
+	let (next_outbound_htlc_minimum_msat, available_capacity_msat) =
+		adjust_min_max_htlc_if_max_dust_htlc_produces_no_output(
+			is_outbound_from_holder,
+			local_balance_before_fee_msat,
+			remote_balance_before_fee_msat,
+			local_nondust_htlc_count,
+			remote_nondust_htlc_count,
+			feerate_per_kw,
+			&channel_constraints,
+			channel_type,
+			next_outbound_htlc_minimum_msat,
+			available_capacity_msat,
+		);
+
+    proof {
+        let s = pending_htlcs@; let cc = channel_constraints; let fr = feerate_per_kw as int; let ob = is_outbound_from_holder;
+        let cv = channel_value_satoshis as int; let vth = value_to_holder_msat as int;
+        let out = sum_if(s, |h: HTLCAmountDirection| h.outbound); let inn = sum_if(s, |h: HTLCAmountDirection| !h.outbound);
+        let anc = 1000 * anchors_spec(channel_type);
+        let lb = ssub(ssub(vth, out), if ob { anc } else { 0 }); let rb = ssub(ssub(cv * 1000 - vth, inn), if ob { 0 } else { anc });
+        assert(local_balance_before_fee_msat as int == lb);
+        assert(remote_balance_before_fee_msat as int == rb);
+        assert(outbound_capacity_msat as int == ssub(lb, cc.counterparty_selected_channel_reserve_satoshis * 1000));
+        assert(spiked_feerate as int == spiked_spec(fr, true, channel_type));
+        assert forall|a: int| 1 <= a && next_outbound_htlc_minimum_msat <= a <= available_capacity_msat implies
+            #[trigger] window_facts(a, ob, cv, vth, s, fr, cc, channel_type) by
+        {
+            let ln = local_nondust_htlc_count as int; let rn = remote_nondust_htlc_count as int;
+            let dl = dl_spec(fr, cc, channel_type); let dr = dr_spec(fr, cc, channel_type);
+            assert(a <= outbound_capacity_msat);
+            assert(a <= lb);
+            if ob {
+                assert(affordable(a, outbound_capacity_msat as int, spiked_feerate as int, ln, dl, channel_type));
+            } else {
+                assert(cp_affordable(a, rb, fr, ln, dl, cc.holder_selected_channel_reserve_satoshis as int, channel_type));
+            }
+            assert(no_output_guard(a, ob, lb, rb, fr, ln, cc.holder_dust_limit_satoshis as int, dl, channel_type));
+        }
+    }
+	AvailableBalances {
+		inbound_capacity_msat: remote_balance_before_fee_msat
+			.saturating_sub(channel_constraints.holder_selected_channel_reserve_satoshis * 1000),
+		outbound_capacity_msat,
+		next_outbound_htlc_limit_msat: available_capacity_msat,
+		next_outbound_htlc_minimum_msat,
+		dust_exposure_msat,
+		next_splice_out_maximum_sat,
+	}
+}
+
+// (P) C01, third sentence: an HTLC inside the reported send window is acceptable on BOTH commitments.
+pub proof fn theorem_send_window_sound(a: int, ob: bool, cv: int, vth: int, s: Seq<HTLCAmountDirection>, fr: int, lim: Option<u32>, cc: ChannelConstraints, ct: &ChannelTypeFeatures)
+    requires
+        0 <= fr <= 0xffff_ffff, 1 <= cc.holder_dust_limit_satoshis, 1 <= cc.counterparty_dust_limit_satoshis, 1 <= a <= 0xffff_ffff_ffff_ffff, 0 <= cv, 0 <= vth,
+        ct.zfc ==> fr == 0,
+        // the channel is currently in a valid state on both commitments
+        stats_spec(true, ob, cv, vth, s, 0, fr, false, lim, cc.holder_dust_limit_satoshis as int, ct) is Some,
+        stats_spec(false, ob, cv, vth, s, 0, fr, false, lim, cc.counterparty_dust_limit_satoshis as int, ct) is Some,
+        // `a` lies inside the window get_available_balances reported (its verified postcondition)
+        window_facts(a, ob, cv, vth, s, fr, cc, ct),
+    ensures ({
+        let h = HTLCAmountDirection { outbound: true, amount_msat: a as u64 };
+        let cres = cc.counterparty_selected_channel_reserve_satoshis as int;
+        let rl = stats_spec(true, ob, cv, vth, s.push(h), 0, fr, false, lim, cc.holder_dust_limit_satoshis as int, ct);
+        let rr = stats_spec(false, ob, cv, vth, s.push(h), 0, fr, false, lim, cc.counterparty_dust_limit_satoshis as int, ct);
+        &&& rl is Some && rl->Some_0.0 >= cres * 1000
+        &&& rr is Some && rr->Some_0.0 >= cres * 1000
+    }),
+{
+    lemma_window_sound_one_commitment(true, ob, cv, vth, s, fr, lim, cc.holder_dust_limit_satoshis as int,
+        cc.counterparty_selected_channel_reserve_satoshis as int, cc.holder_selected_channel_reserve_satoshis as int, a, ct);
+    lemma_window_sound_one_commitment(false, ob, cv, vth, s, fr, lim, cc.counterparty_dust_limit_satoshis as int,
+        cc.counterparty_selected_channel_reserve_satoshis as int, cc.holder_selected_channel_reserve_satoshis as int, a, ct);
+}
+
 }
 fn main() {}
